@@ -288,6 +288,12 @@ def gen_coords(toppath,
     LOGGER.info("writing output",  type="step")
     command = ' '.join(sys.argv)
     system = topology.convert_to_vermouth_system()
-    vermouth.gmx.gro.write_gro(system, outpath, precision=7,
-                               title=command, box=topology.box)
-    DeferredFileWriter().write()
+    try:
+        vermouth.gmx.gro.write_gro(system, outpath, precision=7,
+                                   title=command, box=topology.box)
+        DeferredFileWriter().write()
+    except BaseException:
+        # the unfinished file must not stay queued, otherwise the next
+        # successful run in this process would publish it
+        DeferredFileWriter().close()
+        raise
